@@ -309,8 +309,8 @@ class CInterp(object):
                 c = callee(e)
                 if c == ("fn", "PyErr_Occurred"):
                     return 0
-                self.call(e)
-                return 0
+                r = self.call(e)
+                return r if isinstance(r, int) else 0     # (the value of an inlined predicate)
         raise AnalysisError("merge table: unrecognised expression %s at %s:%s"
                             % (text(e)[:80], e.f, e.l))
 
@@ -327,7 +327,13 @@ class CInterp(object):
             self.act.adv.append(cu)
             return
         if c == ("fn", "merge_error"):
-            self.act.err = const_int(args[3])
+            r = const_int(args[3])
+            if r is None:
+                try:
+                    r = self.ev(args[3])
+                except AnalysisError:
+                    r = None
+            self.act.err = r
             return
         if c == ("fn", "finiSetIteration"):
             return
@@ -405,6 +411,26 @@ class CInterp(object):
                 self.stmt(s.kids[-1])
                 raise _Stop()          # one iteration = one step
         elif k == "GotoStmt":
+            # a shared exit (`reason = N; goto conflict;`): what stands behind the label
+            # still belongs to this step - a refusal made there is this step's refusal
+            if getattr(self, "depth", 0) == 0 and getattr(self, "_goto_depth", 0) < 2:
+                body = self.tu.body("bucket_merge")
+                kids = list(body.kids)
+                for i, c in enumerate(kids):
+                    if c.k == "LabelStmt" and c.n == s.n:
+                        self._goto_depth = getattr(self, "_goto_depth", 0) + 1
+                        try:
+                            for sub in c.kids:
+                                self.stmt(sub)
+                            for nxt in kids[i + 1:]:
+                                if nxt.k == "LabelStmt" or self.act.err is not None:
+                                    break
+                                self.stmt(nxt)
+                        except AnalysisError:
+                            pass          # clean-up code behind the label is not part of the table
+                        finally:
+                            self._goto_depth -= 1
+                        break
             raise _Stop()
         elif k == "ReturnStmt":
             if getattr(self, "depth", 0) > 0:
